@@ -1282,6 +1282,12 @@ fn into_zero_offset_run_array<R: RunEndIndexType>(
         return Ok(run_array);
     }
 
+    // An empty slice has no runs at all (a single run ending at 0 would be invalid)
+    if run_array.len() == 0 {
+        let run_ends = PrimitiveArray::<R>::from_iter_values(std::iter::empty::<R::Native>());
+        return RunArray::try_new(&run_ends, &run_array.values().slice(0, 0));
+    }
+
     // The physical index of original run_ends array from which the `ArrayData`is sliced.
     let start_physical_index = run_ends.get_start_physical_index();
 
